@@ -212,6 +212,19 @@ type Cfg struct {
 	MaxCalls            int  // budget of API calls per Mutate step (default 40)
 	DictHeavy           bool // prefer dictionary-encoded fields and many distinct pooled strings
 
+	// GenSafe avoids three further defects of the code generated by the CURRENT stefc templates
+	// (found by the h_gen vertical, recorded as known findings of C10, triggered by scripted cases):
+	//   - CopyFrom over a node whose type contains, anywhere, a dictionary struct (a dict-struct
+	//     field of a reset() container holds the frozen shared empty value; SetX(unfrozen) clones
+	//     it without parent links: setter-clone-unlinked) or an optional field of composite type
+	//     (copy into an absent optional compares with the stale hidden value:
+	//     copyfrom-into-absent-optional);
+	//   - any call inside a key/value of a multimap that has grown in this history (the
+	//     reallocation moves the key/value structs; array elements, pointer-stored optional
+	//     struct fields and pointer-stored oneof alternatives below them keep parent links to
+	//     the old copies: multimap-realloc-stale-parent).
+	GenSafe bool
+
 	// Reader source for CopyFrom / SetX(readerRecord.X()).
 	ReaderStream []byte
 	ReaderNRead  int
@@ -236,6 +249,7 @@ type State struct {
 	// pointer there. Persistent across Writes.
 	frozenAt   map[string]bool
 	usedFrozen map[*ObjSpec]bool
+	grownMaps  []string // GenSafe: nav keys of multimaps that have grown (persistent)
 	// SetterDrops lists float Set calls after which the getter did not return the bits that
 	// were set (known defect negzero-setter); only possible with AllowNegZero.
 	SetterDrops []string
@@ -322,6 +336,9 @@ func floatSame(a, b float64) bool { return a == b && math.Float64bits(a) != math
 func (st *State) guard(node reflect.Value, c *Call, args []reflect.Value) bool {
 	cfg := st.Cfg
 	key := navKey(c.Nav)
+	if cfg.GenSafe && st.belowMovedElement(key) {
+		return false
+	}
 	switch c.Tag {
 	case 'F':
 		if cfg.AllowNegZero {
@@ -365,6 +382,9 @@ func (st *State) guard(node reflect.Value, c *Call, args []reflect.Value) bool {
 				return false
 			}
 			st.touch(key)
+			if cfg.GenSafe && newLen > cur && c.Ty != nil && c.Ty.Kind == KMultimap {
+				st.grownMaps = append(st.grownMaps, key)
+			}
 		}
 	case 'T':
 		cur := int(call(node, "Type")[0].Uint())
@@ -424,6 +444,11 @@ func (st *State) guard(node reflect.Value, c *Call, args []reflect.Value) bool {
 		st.setFrozen(k, after)
 		st.touch(k)
 	case 'C':
+		if cfg.GenSafe && TypeHas(c.Ty, func(t *Type, f *Field) bool {
+			return (t.Kind == KStruct && t.Def.Dict != "") || (f != nil && f.Optional && !f.Type.Kind.Primitive())
+		}) {
+			return false
+		}
 		strict := !(cfg.AllowRevealArray && cfg.AllowRevealOneof && cfg.AllowRevealShared)
 		if strict && (!st.structuralAllowed(key) || st.anyTouchedUnder(key)) {
 			return false
@@ -452,6 +477,62 @@ func (st *State) guard(node reflect.Value, c *Call, args []reflect.Value) bool {
 		st.locked = append(st.locked, key)
 	}
 	return true
+}
+
+// belowMovedElement: the node is, or lies below, a key/value of a multimap that has grown. The
+// reallocation moves the by-value key/value structs; the generated fixParent re-parents inline
+// struct and multimap children only - not array elements, not optional struct fields stored
+// by pointer, not oneof alternatives stored by pointer - so changes below those mark a dead
+// copy. Conservatively nothing inside such a key/value is mutated in place any more.
+func (st *State) belowMovedElement(key string) bool {
+	for _, k := range st.grownMaps {
+		if strings.HasPrefix(key, k+"/Value#") || strings.HasPrefix(key, k+"/Key#") {
+			return true
+		}
+	}
+	return false
+}
+
+// TypeHas reports whether pred holds for a type reachable from t (through fields, oneof
+// alternatives, array elements, multimap keys and values); for struct fields pred also gets
+// the field.
+func TypeHas(t *Type, pred func(t *Type, f *Field) bool) bool {
+	seen := map[*Def]bool{}
+	var walk func(t *Type, f *Field) bool
+	walk = func(t *Type, f *Field) bool {
+		if t == nil {
+			return false
+		}
+		if pred(t, f) {
+			return true
+		}
+		switch t.Kind {
+		case KArray:
+			return walk(t.Elem, nil)
+		case KStruct, KOneof:
+			if seen[t.Def] {
+				return false
+			}
+			seen[t.Def] = true
+			for i := range t.Def.Fields {
+				fp := &t.Def.Fields[i]
+				if t.Kind == KOneof {
+					fp = nil
+				}
+				if walk(t.Def.Fields[i].Type, fp) {
+					return true
+				}
+			}
+		case KMultimap:
+			if seen[t.Def] {
+				return false
+			}
+			seen[t.Def] = true
+			return walk(t.Def.Key, nil) || walk(t.Def.Val, nil)
+		}
+		return false
+	}
+	return walk(t, nil)
 }
 
 func (st *State) setFrozen(k string, v bool) {
